@@ -207,6 +207,7 @@ def run_batch(spec):
             if len(out["notes"]) < 2:
                 out["notes"].append({"raised": traceback.format_exc()[-500:], "src": src[:1500]})
             continue
+        common.release_tealer_caches()
         if not ok:
             out["inconclusive"] += 1
             continue
